@@ -86,24 +86,36 @@ func expandSteps(es []*spec.ListElem) []string {
 	return out
 }
 
-// defaultFormat formats with the repository font config and default parameters
-// (format("...") without parameters), by calling the real FormatText: C07
+// defaultFormat formats with the repository font config, the parameters the format() call gives and the font defaults for the rest
+// by calling the real FormatText: C07
 // judges that function, here it only supplies the content to compare with.
 func defaultFormat(t *spec.TextVal, lit string) (string, error) {
-	if len(t.Format.Params) != 0 {
-		return "", fmt.Errorf("format() parameters not modelled here")
-	}
 	fc, err := parser.LoadFontConfig(h.RepoDir + "/font_config.json")
 	if err != nil {
 		return "", err
 	}
 	id := fc.DefaultFontID
-	f := fc.Fonts[id]
-	nl := f.NumLines
+	if t.Format.FontID != "" {
+		id = t.Format.FontID
+	}
+	f, ok := fc.Fonts[id]
+	if !ok {
+		return "", fmt.Errorf("font %q is not in the repository font config", id)
+	}
+	width, nl, cursor := f.MaxLineLength, f.NumLines, f.CursorOverlapWidth
+	if t.Format.MaxLineLength > 0 {
+		width = t.Format.MaxLineLength
+	}
+	if t.Format.NumLines > 0 {
+		nl = t.Format.NumLines
+	}
+	if t.Format.CursorWidth > 0 {
+		cursor = t.Format.CursorWidth
+	}
 	if nl <= 0 {
 		nl = 2
 	}
-	return fc.FormatText(lit, f.MaxLineLength, f.CursorOverlapWidth, id, nl)
+	return fc.FormatText(lit, width, cursor, id, nl)
 }
 
 func buildLabelModel(p *spec.Program) *labelModel {
